@@ -193,6 +193,15 @@ example : noOverlapAt 0 0 (.node 0 9 9 [(0, 0, 0, .node 1 2 2 []), (3, 3, 0, .no
     descend 0 0 (.node 0 9 9 [(0, 0, 0, .node 1 2 2 []), (3, 3, 0, .node 2 4 4 [])]) 4 4 =
       [⟨4, 4, 0⟩, ⟨1, 1, 2⟩] := by decide
 
+
+/-- After `render`, the children of every surface are in ascending z order (so among overlapping
+siblings under the pointer the one drawn on top is hit last and becomes the mouse target);
+`ids_sortTree` (Lemmas) shows the sort only permutes. -/
+theorem render_sorts_children_by_z (i : Id) (w h : Nat) (ch : List Kid) :
+    (sortTree (.node i w h ch)).ch.Pairwise (fun a b => a.2.2.1 ≤ b.2.2.1) := by
+  simp only [sortTree, STree.ch]
+  exact sortKids_sorted _
+
 /-- **commands_once** (commands without focus). Running a returned command value that contains no
 focus command — however deeply batched — appends exactly the effects of its non-batch commands,
 in order, once each; flags are set accordingly and nothing else changes. -/
